@@ -4,7 +4,7 @@ import BfeVerif.C14.Proofs
 
   FULL STATEMENT (`C14_det_statement`): for every host_rule.data the loader accepts, every order in which Go may
   range over `Hosts`, `HostTags` and `HostMap` gives the same acceptance and the same (product, tag) for every
-  request host.  The unchanged code VIOLATES it (three `C14_witness_*` theorems, replayed on the real code by
+  request host.  The code VIOLATES it (`C14_witness_case`, `C14_witness_tag`; the former empty-tag witness is repaired, replayed on the real code by
   corpus/C14/known.ops).  Proved: the `_partial` theorems — the trie built by `buildHostRoute` does not depend on the
   iteration order whenever the normalised host names are pairwise distinct.
 -/
@@ -101,32 +101,31 @@ theorem C14_witness_tag :
 def exEmptyTag (hosts : List (String × Option (List String))) : HostFile :=
   { version := some "v1", defaultProduct := none, hosts := some hosts, hostTags := some [("p1", some ["", "t2"])] }
 
-/-- (c) the duplicate test is `host2HostTag[h] != ""`: with the empty host tag even ACCEPTANCE depends on the order. -/
-theorem C14_witness_accept :
-    (hostLoad (exEmptyTag [("", some ["w.a.com"]), ("t2", some ["w.a.com"])])).isOk = true ∧
+/-- (c) FORMER witness, repaired by 73b0231: the duplicate test was `host2HostTag[h] != ""`, so with the empty host tag
+    even ACCEPTANCE depended on the order; with `_, dup := host2HostTag[h]` both orders are rejected. -/
+theorem C14_empty_tag_dup_rejected :
+    hostLoad (exEmptyTag [("", some ["w.a.com"]), ("t2", some ["w.a.com"])]) = .err ∧
     hostLoad (exEmptyTag [("t2", some ["w.a.com"]), ("", some ["w.a.com"])]) = .err := by
   constructor <;> decide
 
-/-- hence the full statement is false for the code as it is -/
+/-- hence the full statement is false for the code as it is (witness (b): a tag under two products) -/
 theorem C14_not_det : ¬ C14_det_statement := by
   intro h
-  have := h (fun s => [s]) (exEmptyTag [("", some ["w.a.com"]), ("t2", some ["w.a.com"])])
-    [("", some ["w.a.com"]), ("t2", some ["w.a.com"])] [("p1", some ["", "t2"])]
-    [("", some ["w.a.com"]), ("t2", some ["w.a.com"])] [("t2", some ["w.a.com"]), ("", some ["w.a.com"])]
-    [("p1", some ["", "t2"])] [("p1", some ["", "t2"])] id id rfl rfl
-    (List.Perm.refl _) (List.Perm.swap _ _ _) (List.Perm.refl _) (List.Perm.refl _)
+  have := h (fun s => [s]) (exTagFile [("p1", some ["t1"]), ("p2", some ["t1"])])
+    [("t1", some ["a.org"])] [("p1", some ["t1"]), ("p2", some ["t1"])]
+    [("t1", some ["a.org"])] [("t1", some ["a.org"])]
+    [("p1", some ["t1"]), ("p2", some ["t1"])] [("p2", some ["t1"]), ("p1", some ["t1"])] id id rfl rfl
+    (List.Perm.refl _) (List.Perm.refl _) (List.Perm.refl _) (List.Perm.swap _ _ _)
     (fun _ => List.Perm.refl _) (fun _ => List.Perm.refl _)
-  have h2 : interpret (fun s => [s]) (exEmptyTag [("", some ["w.a.com"]), ("t2", some ["w.a.com"])])
-      [("t2", some ["w.a.com"]), ("", some ["w.a.com"])] [("p1", some ["", "t2"])] id = .err := by decide
-  have h1 : (interpret (fun s => [s]) (exEmptyTag [("", some ["w.a.com"]), ("t2", some ["w.a.com"])])
-      [("", some ["w.a.com"]), ("t2", some ["w.a.com"])] [("p1", some ["", "t2"])] id).isOk = true := by decide
-  rw [h2] at this
-  revert this h1
-  cases interpret (fun s => [s]) (exEmptyTag [("", some ["w.a.com"]), ("t2", some ["w.a.com"])])
-      [("", some ["w.a.com"]), ("t2", some ["w.a.com"])] [("p1", some ["", "t2"])] id <;> simp [SameMeaning, Res.isOk]
-
-example : (allValues [("p1", some ["t1"]), ("p2", some ["t2", "t3"])]).Nodup := by decide
-example : buildTagMap [("p1", some ["t1"]), ("p2", some ["t2", "t3"])] [] = .ok [("t1", "p1"), ("t2", "p2"), ("t3", "p2")] := by
+  have h1 : interpret (fun s => [s]) (exTagFile [("p1", some ["t1"]), ("p2", some ["t1"])])
+      [("t1", some ["a.org"])] [("p1", some ["t1"]), ("p2", some ["t1"])] id =
+      .ok ([(["a.org"], ("p2", "t1"))], "") := by decide
+  have h2 : interpret (fun s => [s]) (exTagFile [("p1", some ["t1"]), ("p2", some ["t1"])])
+      [("t1", some ["a.org"])] [("p2", some ["t1"]), ("p1", some ["t1"])] id =
+      .ok ([(["a.org"], ("p1", "t1"))], "") := by decide
+  rw [h1, h2] at this
+  have := this ["a.org"]
+  revert this
   decide
 
 /-! non-vacuity of the partial theorems: distinct normalised names, two orders, same answers -/
